@@ -61,10 +61,10 @@ def updatePacketSize (header : Bytes) (n : Nat) : Bytes := leBytes 3 n ++ header
 /-- `SetData` -/
 def setData (p : Packet) (d : Bytes) : Packet := ⟨updatePacketSize p.header d.length, d⟩
 
-/-- `replaceQuery`: both branches leave `data[0] ++ newQuery`; `data[:1]` panics on an empty payload -/
+/-- `replaceQuery`: both branches leave `data[0] ++ newQuery`; an empty payload (no command byte) is left alone -/
 def replaceQuery (p : Packet) (q : Bytes) : Out Packet :=
   match p.data with
-  | [] => .panic
+  | [] => .ok p
   | c :: _ => .ok ⟨updatePacketSize p.header (q.length + 1), c :: q⟩
 
 /-! ### specification codec -/
